@@ -373,6 +373,7 @@ type kvCall struct {
 	TTL       time.Duration
 	Token     uint64
 	Err       string
+	Prev      uint64 // renew: the token the caller presented
 }
 
 type history struct {
@@ -401,26 +402,26 @@ func errStr(err error) string {
 func (k *recKV) Acquire(ctx context.Context, lease []byte, ttl time.Duration) (uint64, error) {
 	c := mono()
 	tok, err := k.KV.Acquire(ctx, lease, ttl)
-	k.h.add(kvCall{"acquire", k.inst, string(lease), c, mono(), ttl, tok, errStr(err)})
+	k.h.add(kvCall{Op: "acquire", Inst: k.inst, Lease: string(lease), Call: c, Ret: mono(), TTL: ttl, Token: tok, Err: errStr(err)})
 	return tok, err
 }
 
 func (k *recKV) Renew(ctx context.Context, lease []byte, ttl time.Duration, prev uint64) (uint64, error) {
 	if k.failRenew.Load() {
 		c := mono()
-		k.h.add(kvCall{"renew", k.inst, string(lease), c, c, ttl, 0, "injected: store unreachable"})
+		k.h.add(kvCall{Op: "renew", Inst: k.inst, Lease: string(lease), Call: c, Ret: c, TTL: ttl, Err: "injected: store unreachable", Prev: prev})
 		return 0, errors.New("injected: store unreachable")
 	}
 	c := mono()
 	tok, err := k.KV.Renew(ctx, lease, ttl, prev)
-	k.h.add(kvCall{"renew", k.inst, string(lease), c, mono(), ttl, tok, errStr(err)})
+	k.h.add(kvCall{Op: "renew", Inst: k.inst, Lease: string(lease), Call: c, Ret: mono(), TTL: ttl, Token: tok, Err: errStr(err), Prev: prev})
 	return tok, err
 }
 
 func (k *recKV) Release(ctx context.Context, lease []byte, token uint64) error {
 	c := mono()
 	err := k.KV.Release(ctx, lease, token)
-	k.h.add(kvCall{"release", k.inst, string(lease), c, mono(), 0, token, errStr(err)})
+	k.h.add(kvCall{Op: "release", Inst: k.inst, Lease: string(lease), Call: c, Ret: mono(), Token: token, Err: errStr(err)})
 	return err
 }
 
@@ -585,6 +586,58 @@ func judgeLocks(r *ev.Run, res lockResult) {
 			renewFail++
 		}
 	}
+	// a live holder that reaches the store keeps its lease: a renewal issued and answered entirely
+	// inside the validity of the holder's latest grant (so the store certainly saw the lease
+	// unexpired) and not preceded by a release must not be refused — otherwise the lease of a
+	// healthy holder runs out under it and another instance legitimately takes the lock while
+	// the first still works under it
+	{
+		type st struct {
+			grant    kvCall
+			has      bool
+			released bool
+		}
+		cur := map[string]*st{}
+		calls := append([]kvCall{}, res.kv...)
+		sort.SliceStable(calls, func(i, j int) bool { return calls[i].Call < calls[j].Call })
+		insideJudged := 0
+		for _, c := range calls {
+			k := fmt.Sprintf("%d|%s", c.Inst, c.Lease)
+			x := cur[k]
+			if x == nil {
+				x = &st{}
+				cur[k] = x
+			}
+			switch c.Op {
+			case "acquire":
+				if c.Err == "" {
+					x.grant, x.has, x.released = c, true, false
+				}
+			case "release":
+				x.released = true
+			case "renew":
+				inside := x.has && !x.released && c.Call >= x.grant.Ret && c.Ret < x.grant.Call+x.grant.TTL.Truncate(time.Second)
+				if c.Err == "" {
+					x.grant, x.has = c, true
+					if inside {
+						insideJudged++
+					}
+					continue
+				}
+				if strings.HasPrefix(c.Err, "injected") {
+					x.has = false // from here on the lease may run out
+					continue
+				}
+				if inside {
+					insideJudged++
+					r.Violation("renewal-refused-inside-own-lease", caseName, fmt.Sprintf("%s: instance %d's renewal of %q during [%v,%v] was refused (%s) although its latest grant (%s at [%v,%v], token %d, ttl %v) was certainly still valid and it had not released; the renewal presented token %d", caseName, c.Inst, c.Lease, c.Call, c.Ret, c.Err, x.grant.Op, x.grant.Call, x.grant.Ret, x.grant.Token, x.grant.TTL, c.Prev),
+						map[string]any{"kind": sc.kind, "ttl": sc.ttl.String(), "seed": sc.seed, "renewal": c, "latest_grant": x.grant})
+				}
+				x.has = false
+			}
+		}
+		r.Count("kv_renewals_judged_inside_own_lease", int64(insideJudged))
+	}
 	r.Count("kv_acquire_conflicts", int64(conflicts))
 	r.Count("kv_renewals_ok", int64(renewOK))
 	r.Count("kv_renewals_failed", int64(renewFail))
@@ -721,7 +774,7 @@ func partB(r *ev.Run) {
 func main() {
 	r := ev.Start("C49", "exploration")
 	r.SetMaxSamples(6)
-	r.SetRule("files: per scenario (1-3 storage instances over one real single-node chord ring on kv/memory) a seeded history of Store/Delete/Load+Exists+Stat/List over keys of 0-3 directory segments dNN and a file segment fNN.pem, one in four through a bNN segment that is itself stored and/or has a file below it (a child that is both a stored key and a parent), non-empty values, distinct by (operation, overwrite / key state stored|deleted|never, depth, number of file / directory / file-and-directory children, trailing slash); locks: scenarios {handoff, lost-renewals (a holder's renewals fail while it keeps holding), two-keys} x 2-4 instances x lease TTL {1s,2s}, each instance locking, holding 0.3-0.9 TTL and unlocking in rounds, distinct by (kind, instances, ttl, contention observed, takeover after possible expiry observed)")
+	r.SetRule("files: per scenario (1-3 storage instances over one real single-node chord ring on kv/memory) a seeded history of Store/Delete/Load+Exists+Stat/List over keys of 0-3 directory segments dNN and a file segment fNN.pem, one in four through a bNN segment that is itself stored and/or has a file below it (a child that is both a stored key and a parent), non-empty values, distinct by (operation, overwrite / key state stored|deleted|never, depth, number of file / directory / file-and-directory children, trailing slash); locks: scenarios {handoff, lost-renewals (a holder's renewals fail while it keeps holding), two-keys} x 2-4 instances x lease TTL {1s,2s}, each instance locking, holding 0.3-0.9 TTL and unlocking in rounds, distinct by (kind, instances, ttl, contention observed, takeover after possible expiry observed); every renewal issued and answered inside the holder's own certainly-valid lease must be granted")
 	r.Assume("segments of one kind have equal length (siblings that are string prefixes of each other are outside the statement), values are non-empty; a key that is both stored and the parent of deeper keys is judged only as a child in its parent's non-recursive listing (exactly once); Load/Exists/Stat of such a key and listing it as the prefix are not judged; a missing directory may list empty or fail with fs.ErrNotExist")
 	r.Assume("lock oracle: instance A certainly holds during [x,y] iff its Lock returned before x, its Unlock was not called by y and the windows [return_i, call_i + floor_seconds(ttl)) of its successful Acquire/Renew calls cover [x,y]; anything else (over-slept or failed renewal) counts as 'lease may have expired' and is not judged")
 	r.Assume("the DHT is a single-node ring (no remote hops, no ownership change during the history)")
